@@ -130,6 +130,15 @@ def _store_ref_block_max_length(path):
 
 
 # ---- fake hl.current_backend().fs ---------------------------------------------------------------
+def _realize(s):
+    """The fake filesystem holds plain strings: a CrossHair symbolic string (json renders a symbolic int as a
+    lazy symbolic str) is made concrete here, exactly as a real file write would (forks one path per value)."""
+    if type(s) is str:
+        return s
+    from crosshair.core import realize
+    return realize(s)
+
+
 class _Writer:
     def __init__(self, path):
         self.path = path
@@ -143,7 +152,7 @@ class _Writer:
 
     def __exit__(self, et, ev, tb):
         if et is None:
-            W.files[self.path] = ''.join(self.chunks)
+            W.files[self.path] = _realize(''.join(self.chunks))
         return False
 
 
@@ -419,6 +428,37 @@ def _uuid4():
     return _real_uuid.UUID(int=W.uuid_n)
 
 
+# ---- engine tweak: f-strings over symbolic ints ---------------------------------------------------------
+def _patch_crosshair_fstrings():
+    """CrossHair 0.0.110 realises a symbolic int that appears in an f-string (format(x, '') -> deep_realize),
+    which would enumerate every n_samples value because the real code logs `f'... {new_n_samples} samples'`.
+    format(x, '') == repr(x) for ints, and CrossHair's own SymbolicInt.__repr__ builds that string lazily
+    (forking only on the number of digits), so the f-string hook is pointed at it for that one case."""
+    try:
+        from crosshair import opcode_intercept as oi
+        from crosshair.libimpl.builtinslib import SymbolicInt
+        from crosshair.tracers import NoTracing
+    except Exception:  # pragma: no cover
+        return
+    if getattr(oi.FormatStashingValue, '_c38_patched', False):
+        return
+    orig = oi.FormatStashingValue.__format__
+
+    def __format__(self, fmt):
+        with NoTracing():
+            lazy = type(self.value) is SymbolicInt and type(fmt) is str and fmt == ''
+        if lazy:
+            self.formatted = self.value.__repr__()
+            return ''
+        return orig(self, fmt)
+
+    oi.FormatStashingValue.__format__ = __format__
+    oi.FormatStashingValue._c38_patched = True
+
+
+_patch_crosshair_fstrings()
+
+
 # ---- namespace proxies -------------------------------------------------------------------------------------
 class _Proxy:
     def __init__(self, real, over):
@@ -487,8 +527,11 @@ for _k, _v in MODULE_OVERRIDES.items():
 # ------------------------------------------------------------------------------------------------
 # the oracle
 # ------------------------------------------------------------------------------------------------
+IMPORT_INTERVAL = _hl.Interval(_hl.Locus('chr1', 1, RG), _hl.Locus('chr1', 1000, RG), includes_end=True)
+
+
 def import_interval():
-    return _hl.Interval(_hl.Locus('chr1', 1, RG), _hl.Locus('chr1', 1000, RG), includes_end=True)
+    return IMPORT_INTERVAL  # immutable; built once at import
 
 
 def new_combiner(n_gvcfs, vds_sizes, branch_factor, batch_size, external_header):
@@ -520,6 +563,8 @@ def execute(n_gvcfs, vds_sizes, branch_factor, batch_size, resume, external_head
     (save() then VariantDatasetCombiner.load()).  Returns (ok, reason, steps, loads)."""
     global W
     W = World()
+    branch_factor = case_split(branch_factor, 2, 4)
+    batch_size = case_split(batch_size, 1, 3)
     n_inputs = n_gvcfs + len(vds_sizes)
     bound = n_inputs + 8
     steps = 0
@@ -549,6 +594,15 @@ def execute(n_gvcfs, vds_sizes, branch_factor, batch_size, resume, external_head
     if len(got.pairs) != n_gvcfs:
         return False, 'final dataset lost gvcf sample ids', steps, W.loads
     return True, 'ok', steps, W.loads
+
+
+def case_split(x, lo, hi):
+    """Identity on ints; under CrossHair it forks one path per value of lo..hi so that the products
+    branch_factor * batch_size and branch_factor ** k stay linear for z3.  Values outside lo..hi pass through."""
+    for v in range(lo, hi + 1):
+        if x == v:
+            return v
+    return x
 
 
 def _bit(resume, i):
